@@ -1,6 +1,8 @@
 import Driver.C17Mon
 import OidcModel.Generated.RPHandlers
 import OidcModel.Generated.RPCookieNew
+import OidcModel.Model.RPConstructGen
+import OidcModel.Model.RPConstructC17
 open Kv Drv
 
 /-
@@ -26,16 +28,62 @@ def mkHandler (l : Line) (es ep : Bool) : CookieHandler :=
   let ch := Gen.NewCookieHandler 0 (hexBytes (str l "hk")) (hexBytes (str l "bk")) ((list l "chopts").map chOpt)
   { ch with securecookie := { ch.securecookie with encodable := fun n _ => if n == "state" then es else ep } }
 
+/-- one `rp.Option` of the application as written on the line (`ropts`) -/
+def rOpt (s : String) : Option C01.ROptD :=
+  match s.splitOn ":" with
+  | ["pkce"] => some (.pkce (some 1))
+  | ["cookie"] => some (.cookieHandler (some 1))
+  | ["authstyle", n] => some (.authStyle (n.toInt?.getD 0))
+  | ["unauth"] => some (.unauthorizedHandler (some 1))
+  | ["errh"] => some (.errorHandler (some 1))
+  | ["jwtok"] => some (.jwtProfile (.ok 1))
+  | ["jwtfail"] => some (.jwtProfile (.ok 2))
+  | ["discurl"] => some (.customDiscoveryUrl "alt")
+  | ["algsdisc"] => some .signingAlgsFromDiscovery
+  | ["logger"] => some (.logger none)
+  | _ => none
+
+/-- the discovery document of the case, as far as the model's document goes -/
+def discDoc (l : Line) : RPCDiscoveryConfiguration :=
+  let iss := str l "iss"
+  let bits := nat l "d.bits"
+  { Issuer := iss, AuthorizationEndpoint := str l "d.auth", TokenEndpoint := str l "d.token", JwksURI := str l "d.jwks",
+    IDTokenSigningAlgValuesSupported := list l "d.algs",
+    UserinfoEndpoint := if bits % 2 == 1 then iss ++ "/userinfo" else "",
+    IntrospectionEndpoint := if bits / 2 % 2 == 1 then iss ++ "/introspect" else "",
+    RevocationEndpoint := if bits / 2 % 2 == 1 then iss ++ "/revoke" else "",
+    EndSessionEndpoint := if bits / 4 % 2 == 1 then iss ++ "/end_session" else "",
+    DeviceAuthorizationEndpoint := if bits / 4 % 2 == 1 then iss ++ "/device" else "" }
+
+/-- the relying party of the case as the REGENERATED constructor builds it from the application's option list (and, for
+    `NewRelyingPartyOIDC`, the discovery document of the case) -/
+def constructed (l : Line) : Go.R RPCRelyingParty :=
+  let opts := ((list l "ropts").filterMap rOpt).map (C01.ROptD.denote 0)
+  if str l "ctor" == "oidc" then
+    GenC01.NewRelyingPartyOIDC 0 { discover := fun _ _ _ => .ok (discDoc l), jwks := fun _ _ => {} }
+      (str l "iss") (str l "cid") "secret" (str l "ruri") (list l "sc") opts
+  else
+    GenC01.NewRelyingPartyOAuth 0
+      { ClientID := str l "cid", ClientSecret := "secret", RedirectURL := str l "ruri", Scopes := list l "sc",
+        Endpoint := { AuthURL := "http://op.local/authorize", TokenURL := "" } } opts
+
 def mkRP (l : Line) : RP :=
   let es := if has l "es" then bool l "es" else true
   let ep := if has l "ep" then bool l "ep" else true
   let provfail := bool l "provfail"
+  let provider : TokenReq → Go.R Tokens := fun _ => if provfail then .error "refused" else .ok { id := 0 }
+  if has l "ctor" then
+    -- (round 5) through the regenerated constructor and the regenerated getters
+    match constructed l with
+    | .ok rpc => C17Construct.view 0 rpc (fun _ => mkHandler l es ep) (fun n => { ok := n == 1 }) provider
+    | .error _ => { provider := provider }
+  else
   { oauthConfig := { ClientID := str l "cid", ClientSecret := "secret", RedirectURL := str l "ruri", Scopes := list l "sc",
                      Endpoint := { AuthURL := "http://op.local/authorize", TokenURL := "" } },
     cookieHandler := some (mkHandler l es ep),
     pkce := bool l "pkce",
     signer := match nat l "sg" with | 0 => none | 1 => some { ok := true } | _ => some { ok := false },
-    provider := fun _ => if provfail then .error "refused" else .ok { id := 0 } }
+    provider := provider }
 
 def urlOpts (l : Line) : List UrlOpt := (zipKV (list l "upk") (list l "upv")).map fun kv => [kv]
 
